@@ -2,6 +2,8 @@ import Std.Tactic.Do
 import DracoModel.EbEncPredict
 import DracoProofs.Wrap
 import DracoProofs.SeqIntValues
+import DracoProofs.Octahedron
+import DracoProofs.Yields
 /-
   Round trips of the mesh prediction schemes of the Edgebreaker codec on the SAME mesh data
   (corner table, data-to-corner map, vertex-to-data map): the decoder loop of
@@ -862,5 +864,367 @@ theorem delta_octa_roundtrip (q : Nat) (t : OctaT) (hq : Octa.init q = some t) (
     es hent
   simp only [List.toList_toArray]
   rw [show ([0, 0] : List Int) = List.replicate 2 0 from rfl, hinv, e1]
+
+
+/-! ### geometric normal prediction -/
+
+section GeometricNormal
+open Draco.Eb hiding iabs nextC prevC
+
+
+/-- the decoder's computation for one entry of the geometric normal scheme -/
+def normalOriginal (ot : OctaT) (pred : Int × Int × Int) (flip : Bool) (c : Int × Int) : Int × Int :=
+  let v := Octa.canonicalizeIntVec ot pred
+  let w := if flip then (wrap32 (-v.1), wrap32 (-v.2.1), wrap32 (-v.2.2)) else v
+  Octa.decOrig ot (Octa.intVecToCoords ot w) c
+
+theorem wrap32_small (x : Int) (h1 : -2^31 ≤ x) (h2 : x < 2^31) : wrap32 x = x := by
+  unfold wrap32; omega
+
+theorem normalCorrection_inverse (q : Nat) (ot : OctaT) (hq : Octa.init q = some ot) (pred : Int × Int × Int)
+    (o : Int × Int) (hg : Octa.inGrid ot o) (hc : Octa.canonical ot o) :
+    normalOriginal ot pred (normalCorrection ot pred o).1
+      ((normalCorrection ot pred o).2.1, (normalCorrection ot pred o).2.2) = o := by
+  obtain ⟨hwf, _⟩ := Octa.init_wf hq
+  have hwf' := hwf
+  obtain ⟨hV, hQ, hc1, h29⟩ := hwf'
+  have hsum := Octa.canonicalizeIntVec_abs_sum ot (by omega) pred
+  unfold normalCorrection normalOriginal
+  generalize Octa.canonicalizeIntVec ot pred = v at *
+  obtain ⟨x, y, z⟩ := v
+  simp only at hsum
+  have hx : iabs x ≤ ot.center := by have := Octa.iabs_nonneg y; have := Octa.iabs_nonneg z; omega
+  have hy : iabs y ≤ ot.center := by have := Octa.iabs_nonneg x; have := Octa.iabs_nonneg z; omega
+  have hz : iabs z ≤ ot.center := by have := Octa.iabs_nonneg x; have := Octa.iabs_nonneg y; omega
+  have hnx : wrap32 (-x) = -x := wrap32_small _ (by unfold iabs at hx; split at hx <;> omega) (by unfold iabs at hx; split at hx <;> omega)
+  have hny : wrap32 (-y) = -y := wrap32_small _ (by unfold iabs at hy; split at hy <;> omega) (by unfold iabs at hy; split at hy <;> omega)
+  have hnz : wrap32 (-z) = -z := wrap32_small _ (by unfold iabs at hz; split at hz <;> omega) (by unfold iabs at hz; split at hz <;> omega)
+  have hsumN : iabs (-x) + iabs (-y) + iabs (-z) = ot.center := by
+    have e : ∀ a : Int, iabs (-a) = iabs a := by intro a; unfold iabs; split <;> split <;> omega
+    rw [e, e, e]; exact hsum
+  obtain ⟨gP, _⟩ := Octa.intVecToCoords_inGrid_canonical ot hwf (x, y, z) hsum
+  obtain ⟨gN, _⟩ := Octa.intVecToCoords_inGrid_canonical ot hwf (-x, -y, -z) hsumN
+  -- both candidate corrections decode to `o`
+  have key : ∀ pr, Octa.inGrid ot pr →
+      Octa.decOrig ot pr (Octa.makePositive ot (Octa.modMax ot (Octa.encCorr ot o pr).1),
+        Octa.makePositive ot (Octa.modMax ot (Octa.encCorr ot o pr).2)) = o := by
+    intro pr hpr
+    obtain ⟨r1, r2⟩ := Octa.octa_roundtrip_wf ot hwf o pr hc hg hpr
+    unfold Octa.inGrid at r2
+    rw [Octa.makePositive_modMax ot hwf _ r2.1 r2.2.1, Octa.makePositive_modMax ot hwf _ r2.2.2.1 r2.2.2.2]
+    exact r1
+  simp only [hnx, hny, hnz]
+  split
+  · simp only [Bool.false_eq_true, if_false]
+    exact key _ gP
+  · simp only [if_true]
+    exact key _ gN
+
+/-- value of the normal prediction of entry `p` (zero vector when the call fails) -/
+def npVal (md : MeshData) (ps : PosSource) (p : Nat) : Int × Int × Int :=
+  match normalPredict md ps (md.d2c[p]!) with
+  | .ok v => v
+  | .error _ => (0, 0, 0)
+
+def NormalOK (md : MeshData) (ps : PosSource) : Prop :=
+  ∀ p, p < md.d2c.size → normalPredict md ps (md.d2c[p]!) = pure (npVal md ps p)
+
+/-- flip bit and correction of entry `p` -/
+def normalEntry (md : MeshData) (ps : PosSource) (ot : OctaT) (data : Array Int) (p : Nat) : Bool × Int × Int :=
+  normalCorrection ot (npVal md ps p) (data.getD (2 * p) 0, data.getD (2 * p + 1) 0)
+
+/-- entries `< k` hold the pairs `g p`, the rest is zero -/
+def pairArr (size : Nat) (g : Nat → Int × Int) (k : Nat) : Array Int :=
+  Array.ofFn (n := size) fun i =>
+    if i.val < 2 * k then (if i.val % 2 = 0 then (g (i.val / 2)).1 else (g (i.val / 2)).2) else 0
+
+@[simp] theorem pairArr_size (size : Nat) (g : Nat → Int × Int) (k : Nat) : (pairArr size g k).size = size := by
+  simp [pairArr]
+
+theorem pairArr_get (size : Nat) (g : Nat → Int × Int) (k i : Nat) (h : i < size) :
+    (pairArr size g k)[i]'(by simp [h]) =
+      if i < 2 * k then (if i % 2 = 0 then (g (i / 2)).1 else (g (i / 2)).2) else 0 := by
+  simp [pairArr]
+
+theorem pairArr_getD (size : Nat) (g : Nat → Int × Int) (k i : Nat) (h : i < size) :
+    (pairArr size g k).getD i 0 =
+      if i < 2 * k then (if i % 2 = 0 then (g (i / 2)).1 else (g (i / 2)).2) else 0 := by
+  rw [Array.getD, dif_pos (by simp [h])]
+  exact pairArr_get size g k i h
+
+theorem pairArr_step (size : Nat) (g : Nat → Int × Int) (k : Nat) (h : 2 * k + 1 < size) :
+    ((pairArr size g k).set (2 * k) (g k).1 (by simp; omega)).set
+      (2 * k + 1) (g k).2 (by simp; omega) = pairArr size g (k + 1) := by
+  apply Array.ext
+  · simp
+  · intro i h1 h2
+    have hi : i < size := by simpa using h2
+    rw [pairArr_get size g (k + 1) i hi]
+    by_cases e1 : i = 2 * k + 1
+    · subst e1
+      simp only [Array.getElem_set_self]
+      have hd : (2 * k + 1) / 2 = k := by omega
+      rw [if_pos (by omega), if_neg (by omega), hd]
+    · rw [Array.getElem_set_ne (h := by omega) (pj := by simp; omega)]
+      by_cases e0 : i = 2 * k
+      · subst e0
+        simp only [Array.getElem_set_self]
+        have hd : (2 * k) / 2 = k := by omega
+        rw [if_pos (by omega), if_pos (by omega), hd]
+      · rw [Array.getElem_set_ne (h := by omega) (pj := by simp; omega), pairArr_get size g k i hi]
+        by_cases hl : i < 2 * k
+        · simp only [hl, if_true, show i < 2 * (k + 1) by omega]
+        · simp only [hl, if_false, show ¬ i < 2 * (k + 1) by omega]
+
+def normalCorrArr (md : MeshData) (ps : PosSource) (ot : OctaT) (data : Array Int) (k : Nat) : Array Int :=
+  pairArr data.size (fun p => (normalEntry md ps ot data p).2) k
+
+def normalFlips (md : MeshData) (ps : PosSource) (ot : OctaT) (data : Array Int) (k : Nat) : Array Bool :=
+  (Array.range k).map fun p => (normalEntry md ps ot data p).1
+
+theorem geometricNormalEncode_spec (md : MeshData) (ps : PosSource) (ot : OctaT) (data : Array Int) (n : Nat)
+    (hd : md.d2c.size = n) (hsz : data.size = 2 * n) (hok : NormalOK md ps) :
+    ⦃⌜True⌝⦄ geometricNormalEncode md ps ot data
+    ⦃⇓ r => ⌜r = (normalCorrArr md ps ot data n, normalFlips md ps ot data n)⌝⦄ := by
+  mvcgen [geometricNormalEncode]
+  case inv1 =>
+    exact ⇓⟨xs, b⟩ => ⌜b = (normalCorrArr md ps ot data xs.prefix.length, normalFlips md ps ot data xs.prefix.length)⌝
+  case vc1.step =>
+    rename_i out0 flips0 pref cur suff hsplit b out1 flips1 hb0
+    obtain ⟨hc, hlt⟩ := range_split hsplit
+    rw [hd] at hlt
+    have hcur : cur = pref.length := by omega
+    obtain ⟨bo, bf⟩ := b
+    have hb : (bo, bf) = (normalCorrArr md ps ot data pref.length, normalFlips md ps ot data pref.length) := hb0
+    obtain ⟨hbo, hbf⟩ := Prod.mk.inj hb
+    subst hbo hbf
+    rw [hok cur (by omega)]
+    mvcgen
+    case vc1.h => omega
+    case vc2.h => omega
+    case vc3.h => simp [normalCorrArr]; omega
+    case vc4.h => rename_i r h; subst h; simp [normalCorrArr]; omega
+    case vc5.success.success.success.success =>
+      rename_i r1 h1 r2 h2 r3 h3 r4 h4
+      subst h4 h3 h2 h1
+      have hg0 : data.getD (2 * cur) 0 = data[2 * cur]'(by omega) := by simp [Array.getD, show 2 * cur < data.size by omega]
+      have hg1 : data.getD (2 * cur + 1) 0 = data[2 * cur + 1]'(by omega) := by
+        simp [Array.getD, show 2 * cur + 1 < data.size by omega]
+      have hne : normalCorrection ot (npVal md ps cur) (data[2 * cur]'(by omega), data[2 * cur + 1]'(by omega)) =
+          normalEntry md ps ot data cur := by
+        unfold normalEntry; rw [hg0, hg1]
+      subst hcur
+      simp only [List.length_append, List.length_cons, List.length_nil, Nat.zero_add]
+      refine Prod.ext ?_ ?_
+      · simp only [hne]
+        exact pairArr_step data.size (fun p => (normalEntry md ps ot data p).2) pref.length (by omega)
+      · simp only [hne, normalFlips, Array.range_succ]
+        simp
+  case vc2.pre =>
+    rename_i out0 flips0
+    show (Array.replicate data.size (0 : Int), (Array.mkEmpty md.d2c.size : Array Bool)) =
+      (normalCorrArr md ps ot data 0, normalFlips md ps ot data 0)
+    refine Prod.ext ?_ ?_
+    · apply Array.ext
+      · simp [normalCorrArr]
+      · intro i h1 h2
+        have hi : i < data.size := by simpa using h1
+        simp only [normalCorrArr]
+        rw [pairArr_get _ _ _ i hi]
+        simp
+    · simp [normalFlips]
+  case vc3.post.success =>
+    rename_i out0 flips0 r out1 flips1 hr0
+    have hr : r = (normalCorrArr md ps ot data ([:md.d2c.size].toList).length,
+        normalFlips md ps ot data ([:md.d2c.size].toList).length) := hr0
+    rw [range_length, hd] at hr
+    show (r.1, r.2) = _
+    rw [hr, Nat.sub_zero]
+  case vc4.post.except => simp
+
+
+theorem mix_step2 (orig corr : Array Int) (k : Nat) (hs : corr.size = orig.size) (h : 2 * k + 1 < corr.size) :
+    ((mix orig corr (2 * k)).set (2 * k) (orig.getD (2 * k) 0) (by simp; omega)).set (2 * k + 1)
+      (orig.getD (2 * k + 1) 0) (by simp; omega) = mix orig corr (2 * (k + 1)) := by
+  apply Array.ext
+  · simp
+  · intro i h1 h2
+    have hi : i < corr.size := by simpa using h2
+    rw [mix_get orig corr _ i hi]
+    by_cases e1 : i = 2 * k + 1
+    · subst e1
+      simp only [Array.getElem_set_self]
+      rw [if_pos (by omega)]
+    · rw [Array.getElem_set_ne (h := by omega) (pj := by simp; omega)]
+      by_cases e0 : i = 2 * k
+      · subst e0
+        simp only [Array.getElem_set_self]
+        rw [if_pos (by omega)]
+      · rw [Array.getElem_set_ne (h := by omega) (pj := by simp; omega), mix_get orig corr _ i hi]
+        by_cases hl : i < 2 * k
+        · rw [if_pos hl, if_pos (by omega)]
+        · rw [if_neg hl, if_neg (by omega)]
+
+theorem normalOriginal_eq (ot : OctaT) (a : Int × Int × Int) (f : Bool) (c : Int × Int) :
+    Leaf.octaDec ot
+      ((Octa.intVecToCoords ot
+          (if f = true then
+            (wrap32 (-(Octa.canonicalizeIntVec ot a).1), wrap32 (-(Octa.canonicalizeIntVec ot a).2.1),
+              wrap32 (-(Octa.canonicalizeIntVec ot a).2.2))
+          else ((Octa.canonicalizeIntVec ot a).1, (Octa.canonicalizeIntVec ot a).2.1, (Octa.canonicalizeIntVec ot a).2.2))).1,
+        (Octa.intVecToCoords ot
+          (if f = true then
+            (wrap32 (-(Octa.canonicalizeIntVec ot a).1), wrap32 (-(Octa.canonicalizeIntVec ot a).2.1),
+              wrap32 (-(Octa.canonicalizeIntVec ot a).2.2))
+          else ((Octa.canonicalizeIntVec ot a).1, (Octa.canonicalizeIntVec ot a).2.1, (Octa.canonicalizeIntVec ot a).2.2))).2) c
+      = normalOriginal ot a f c := by
+  unfold normalOriginal Leaf.octaDec
+  cases f <;> simp
+
+theorem geometricNormalDecode_spec (md : MeshData) (ps : PosSource) (ot : OctaT) (orig corr : Array Int)
+    (flipsL : List Bool) (n : Nat) (hd : md.d2c.size = n) (hsz : orig.size = 2 * n) (hcs : corr.size = orig.size)
+    (hok : NormalOK md ps) (fd : RAnsBitDec) (hfd : Yields RAnsBitDec.nextBit fd flipsL) (hfl : flipsL.length = n)
+    (hinv : ∀ p, p < n → normalOriginal ot (npVal md ps p) (flipsL.getD p false)
+      (corr.getD (2 * p) 0, corr.getD (2 * p + 1) 0) = (orig.getD (2 * p) 0, orig.getD (2 * p + 1) 0)) :
+    ⦃⌜True⌝⦄ geometricNormalDecode md ps ot (Leaf.octaDec ot) false fd corr ⦃⇓ r => ⌜r.1 = orig⌝⦄ := by
+  mvcgen [geometricNormalDecode]
+  case inv1 =>
+    exact ⇓⟨xs, b⟩ => ⌜b.1 = mix orig corr (2 * xs.prefix.length) ∧
+      Yields RAnsBitDec.nextBit b.2.1 (flipsL.drop xs.prefix.length)⌝
+  case vc1.step =>
+    rename_i pref cur suff hsplit b data0 s0 fd0 flipped0 corner0 hb0
+    obtain ⟨hc, hlt⟩ := range_split hsplit
+    rw [hd] at hlt
+    have hcur : cur = pref.length := by omega
+    obtain ⟨bd, bfd, bfl⟩ := b
+    have hb : bd = mix orig corr (2 * pref.length) ∧ Yields RAnsBitDec.nextBit bfd (flipsL.drop pref.length) := hb0
+    obtain ⟨hbd, hy⟩ := hb
+    subst hbd hcur
+    rw [List.drop_eq_getElem_cons (by omega)] at hy
+    obtain ⟨hbit, hy'⟩ := hy
+    have hflip : flipsL.getD pref.length false = flipsL[pref.length]'(by omega) := by
+      simp [List.getD, show pref.length < flipsL.length by omega]
+    have hi0 : 2 * pref.length < corr.size := by omega
+    have hi1 : 2 * pref.length + 1 < corr.size := by omega
+    have hg0 : (mix orig corr (2 * pref.length))[2 * pref.length]'(by simp; omega) = corr.getD (2 * pref.length) 0 := by
+      rw [mix_get orig corr _ _ hi0, if_neg (by omega)]; simp [Array.getD, hi0]
+    have hg1 : (mix orig corr (2 * pref.length))[2 * pref.length + 1]'(by simp; omega) = corr.getD (2 * pref.length + 1) 0 := by
+      rw [mix_get orig corr _ _ hi1, if_neg (by omega)]; simp [Array.getD, hi1]
+    have hval := hinv pref.length hlt
+    rw [hflip, ← hbit] at hval
+    simp only [corner0]
+    rw [hok pref.length (by omega)]
+    simp only [normalOriginal_eq, data0, fd0, s0, flipped0]
+    have leaf : ∀ (k : Nat),
+        ((((mix orig corr (2 * pref.length)).set (2 * pref.length)
+          (normalOriginal ot (npVal md ps pref.length) bfd.nextBit.1
+            ((mix orig corr (2 * pref.length))[2 * pref.length]'(by simp; omega),
+             (mix orig corr (2 * pref.length))[2 * pref.length + 1]'(by simp; omega))).1 (by simp; omega)).set
+          (2 * pref.length + 1)
+          (normalOriginal ot (npVal md ps pref.length) bfd.nextBit.1
+            ((mix orig corr (2 * pref.length))[2 * pref.length]'(by simp; omega),
+             (mix orig corr (2 * pref.length))[2 * pref.length + 1]'(by simp; omega))).2 (by simp; omega)),
+          bfd.nextBit.2, k).1 = mix orig corr (2 * (pref ++ [pref.length]).length) ∧
+        Yields RAnsBitDec.nextBit bfd.nextBit.2 (flipsL.drop (pref ++ [pref.length]).length) := by
+      intro k
+      simp only [List.length_append, List.length_cons, List.length_nil, Nat.zero_add]
+      refine ⟨?_, hy'⟩
+      rw [hg0, hg1, hval]
+      exact mix_step2 orig corr pref.length hcs hi1
+    mvcgen
+    case vc1.h => simp; omega
+    case vc2.h => simp; omega
+    case vc3.h => simp; omega
+    case vc4.h => rename_i r h; subst h; simp; omega
+    case vc5.isTrue.success.success.success.success =>
+      rename_i hf r1 h1 r2 h2 r3 h3 r4 h4
+      subst h4 h3 h2 h1
+      exact leaf 0
+    case vc6.h => simp; omega
+    case vc7.h => simp; omega
+    case vc8.h => simp; omega
+    case vc9.h => rename_i r h; subst h; simp; omega
+    case vc10.isFalse.success.success.success.success =>
+      rename_i hf r1 h1 r2 h2 r3 h3 r4 h4
+      subst h4 h3 h2 h1
+      exact leaf 0
+  case vc2.pre =>
+    show corr = mix orig corr (2 * 0) ∧ Yields RAnsBitDec.nextBit fd (flipsL.drop 0)
+    exact ⟨(mix_zero orig corr).symm, by simpa using hfd⟩
+  case vc3.post.success =>
+    rename_i r d0 s1 fd1 hr0
+    have hr : r.1 = mix orig corr (2 * ([:md.d2c.size].toList).length) ∧ _ := hr0
+    rw [range_length, hd] at hr
+    show r.1 = orig
+    rw [hr.1]
+    exact mix_all orig corr _ hcs (by omega)
+  case vc4.post.except => simp
+
+
+theorem normalOK_of_encode (md : MeshData) (ps : PosSource) (ot : OctaT) (data : Array Int) (r : Array Int × Array Bool)
+    (h : geometricNormalEncode md ps ot data = .ok r) : NormalOK md ps := by
+  intro p hp
+  unfold geometricNormalEncode at h
+  simp only [Std.Legacy.Range.forIn_eq_forIn_range'] at h
+  rw [bind_ok_iff] at h
+  obtain ⟨st, hloop, _⟩ := h
+  have hmem : p ∈ List.range' 0 ([:md.d2c.size].size) 1 := by
+    simp [Std.Legacy.Range.size, List.mem_range']
+    omega
+  obtain ⟨s, r', hbody⟩ := forIn_ok_steps _ _ (by
+    intro a s r hr
+    simp only [bind_ok_iff] at hr
+    obtain ⟨_, _, _, _, _, _, _, _, _, _, hr⟩ := hr
+    simp [pure, Except.pure] at hr
+    exact ⟨_, hr.symm⟩) _ _ hloop _ hmem
+  rw [bind_ok_iff] at hbody
+  obtain ⟨v, hv, _⟩ := hbody
+  show normalPredict md ps md.d2c[p]! = Except.ok (npVal md ps p)
+  simp [npVal, hv]
+
+/-- **geometric normal prediction**: whenever the encoder loop succeeds, the decoder loop — fed the encoder's
+    corrections and a bit decoder that yields the encoder's flip bits — returns the octahedral coordinates
+    (entries = canonical points of the grid) -/
+theorem geometric_normal_roundtrip (md : MeshData) (ps : PosSource) (q : Nat) (ot : OctaT) (hq : Octa.init q = some ot)
+    (data : Array Int) (n : Nat) (hd : md.d2c.size = n) (hsz : data.size = 2 * n)
+    (hent : ∀ p, p < n → Octa.inGrid ot (data.getD (2 * p) 0, data.getD (2 * p + 1) 0) ∧
+      Octa.canonical ot (data.getD (2 * p) 0, data.getD (2 * p + 1) 0))
+    (corr : Array Int) (flips : Array Bool) (henc : geometricNormalEncode md ps ot data = .ok (corr, flips))
+    (fd : RAnsBitDec) (hfd : Yields RAnsBitDec.nextBit fd flips.toList) :
+    ∃ k, geometricNormalDecode md ps ot (Leaf.octaDec ot) false fd corr = .ok (data, k) := by
+  have hok := normalOK_of_encode md ps ot data _ henc
+  obtain ⟨a, h1, h2⟩ := R.of_triple (geometricNormalEncode_spec md ps ot data n hd hsz hok)
+  rw [henc] at h1
+  cases h1
+  obtain ⟨hcorr, hflips⟩ := Prod.mk.inj h2
+  subst hcorr hflips
+  have hspec := geometricNormalDecode_spec md ps ot data (normalCorrArr md ps ot data n)
+    (normalFlips md ps ot data n).toList n hd hsz (by simp [normalCorrArr]) hok fd hfd (by simp [normalFlips]) ?_
+  · obtain ⟨r, e1, e2⟩ := R.of_triple hspec
+    refine ⟨r.2, ?_⟩
+    rw [e1]
+    congr 1
+    exact Prod.ext e2 rfl
+  · intro p hp
+    have hi0 : 2 * p < data.size := by omega
+    have hi1 : 2 * p + 1 < data.size := by omega
+    have hc0 : (normalCorrArr md ps ot data n).getD (2 * p) 0 = (normalEntry md ps ot data p).2.1 := by
+      unfold normalCorrArr
+      rw [pairArr_getD _ _ _ _ hi0, if_pos (by omega), if_pos (by omega)]
+      have : 2 * p / 2 = p := by omega
+      rw [this]
+    have hc1 : (normalCorrArr md ps ot data n).getD (2 * p + 1) 0 = (normalEntry md ps ot data p).2.2 := by
+      unfold normalCorrArr
+      rw [pairArr_getD _ _ _ _ hi1, if_pos (by omega), if_neg (by omega)]
+      have : (2 * p + 1) / 2 = p := by omega
+      rw [this]
+    have hf : (normalFlips md ps ot data n).toList.getD p false = (normalEntry md ps ot data p).1 := by
+      simp [normalFlips, List.getD, hp]
+    rw [hc0, hc1, hf]
+    obtain ⟨hg, hcn⟩ := hent p hp
+    exact normalCorrection_inverse q ot hq (npVal md ps p) _ hg hcn
+
+
+end GeometricNormal
 
 end Draco.EbEnc
